@@ -106,7 +106,7 @@ Arguments pd_data {V}. Arguments pd_file {V}.
 (* ================= 3. JSON form of the stores and their revival ================= *)
 Inductive sval :=
 | SStamped (stamp : Z) (m : message)                 (* _store, _delivery_store: (stored_at, message) *)
-| SPair (a b : Z)                                    (* _segment_store: (ref_num, seq_num) *)
+| SPair (key : list Z) (b : Z)                       (* _segment_store: (status key 'ref/seq', segment seq_num) *)
 | SSegStat (status : list (string * Z)) (orig : message) (last_response last_receipt : option message)
 | SSegText (stamp : Z) (segs : list (string * list Z)).   (* _delivery_segment_store: (stored_at, {seq: text}) *)
 
@@ -116,7 +116,7 @@ Definition opt_msg_json (o : option message) : res json :=
 Definition sval_json (v : sval) : res json :=
   match v with
   | SStamped st m => do j <- to_json m; Ok (JArr [JReal st; j])
-  | SPair a b => Ok (JArr [JInt a; JInt b])
+  | SPair a b => Ok (JArr [JStr a; JInt b])
   | SSegStat status orig lr lc =>
     do jo <- to_json orig; do jr <- opt_msg_json lr; do jc <- opt_msg_json lc;
     Ok (JObj [("status", JObj (map (fun kv => (fst kv, JInt (snd kv))) status)); ("orig_submit_sm", jo);
@@ -172,7 +172,7 @@ Definition revive_val (j : json) : res sval :=
   | JObj o =>
     do r <- process_object o;
     match r with OSeg st orig lr lc => Ok (SSegStat st orig lr lc) | _ => Err EXN_Unmodelled end
-  | JArr [JInt a; JInt b] => Ok (SPair a b)
+  | JArr [JStr a; JInt b] => Ok (SPair a b)
   | JArr [JReal st; JObj o] =>
     do r <- process_object o;
     match r with
@@ -198,7 +198,7 @@ Definition ser_optmsg (o : option message) : list Z := match o with None => [0] 
 Definition ser_sval (v : sval) : list Z :=
   match v with
   | SStamped st m => 1 :: st :: ser_message m
-  | SPair a b => [2; a; b]
+  | SPair a b => 2 :: Z.of_nat (List.length a) :: a ++ [b]
   | SSegStat status orig lr lc =>
     3 :: Z.of_nat (List.length status) :: List.concat (map (fun kv => ser_key (fst kv) ++ [snd kv]) status)
       ++ ser_message orig ++ ser_optmsg lr ++ ser_optmsg lc
